@@ -105,7 +105,12 @@ def translate_real(text: str):
         r = KROMEReaction(f"1,H,H,H2,,NONE,NONE,{text}")
         out = r.rateexpr()
     except Exception as e:   # noqa
-        return {"accepted": False, "valid": True, "tree": ["none"], "out": "", "err": f"{type(e).__name__}"}
+        # a rejected expression is submitted once more straight away (a caller that retries): still rejected -- or, if it is accepted now,
+        # judged like any accepted translation
+        try:
+            out = KROMEReaction(f"1,H,H,H2,,NONE,NONE,{text}").rateexpr()
+        except Exception:   # noqa
+            return {"accepted": False, "valid": True, "tree": ["none"], "out": "", "err": f"{type(e).__name__}"}
     try:
         return {"accepted": True, "valid": True, "tree": cexpr.canon(cexpr.parse(out)), "out": out, "err": ""}
     except cexpr.ParseError as e:
